@@ -58,6 +58,7 @@ def catalog_strategy(draw, max_slabs=4, max_halos=6, layouts=('box',), min_slabs
         'ppd': draw(st.sampled_from([64, 1, 6912, 32767, 100])),
         'nprev': draw(st.integers(1, 3)),
         'compression': draw(st.sampled_from(list(compressions))),
+        'cleanlayout': draw(st.sampled_from(['std', 'std', 'std', 'flat', 'insim', 'insim-flat'])),
         'seed': draw(st.integers(0, 2**32 - 1)),
         'slabs': slabs,
     }
@@ -199,7 +200,19 @@ def build(desc, root):
         cat.header = header
     else:
         cat.groupdir = os.path.join(root, 'Sim', 'halos', 'z0.500')
-        cat.cleandir = os.path.join(root, 'cleaning')
+        # the four cleaning-directory layouts the reader's path logic documents:
+        #   std        <root>/cleaning/Sim/z0.500/cleaned_halo_info/cleaned_halo_info_000.asdf
+        #   flat       <root>/cleaning/Sim/z0.500/cleaned_halo_info_000.asdf
+        #   insim      <root>/Sim/cleaning/z0.500/cleaned_halo_info/cleaned_halo_info_000.asdf
+        #   insim-flat <root>/Sim/cleaning/z0.500/cleaned_halo_info_000.asdf
+        lay = desc.get('cleanlayout', 'std')
+        if lay.startswith('insim'):
+            cat.cleandir = os.path.join(root, 'Sim', 'cleaning')
+            cat.cleanz = os.path.join(cat.cleandir, 'z0.500')
+        else:
+            cat.cleandir = os.path.join(root, 'cleaning')
+            cat.cleanz = os.path.join(cat.cleandir, 'Sim', 'z0.500')
+        cat.cleanflat = lay.endswith('flat')
     for sl in desc['slabs']:
         s = int(sl['index'])
         halos = sl['halos']
@@ -285,10 +298,10 @@ def build(desc, root):
             for X in 'AB':
                 _write(os.path.join(cat.groupdir, 'halo_rv_' + X, 'halo_rv_%s_%03d.asdf' % (X, s)), header, {'rvint': S.part[X]['rvint']}, comp)
                 _write(os.path.join(cat.groupdir, 'halo_pid_' + X, 'halo_pid_%s_%03d.asdf' % (X, s)), header, {'packedpid': S.part[X]['packedpid']}, comp)
-            cdir = os.path.join(cat.cleandir, 'Sim', 'z0.500')
-            _write(os.path.join(cdir, 'cleaned_halo_info', 'cleaned_halo_info_%03d.asdf' % s), cheader, C, comp)
+            cdir = cat.cleanz
+            _write(os.path.join(cdir, '' if cat.cleanflat else 'cleaned_halo_info', 'cleaned_halo_info_%03d.asdf' % s), cheader, C, comp)
             _write(
-                os.path.join(cdir, 'cleaned_rvpid', 'cleaned_rvpid_%03d.asdf' % s),
+                os.path.join(cdir, '' if cat.cleanflat else 'cleaned_rvpid', 'cleaned_rvpid_%03d.asdf' % s),
                 cheader,
                 {'rvint_A': S.clean['A']['rvint'], 'rvint_B': S.clean['B']['rvint'], 'packedpid_A': S.clean['A']['packedpid'], 'packedpid_B': S.clean['B']['packedpid']},
                 comp,
